@@ -213,7 +213,24 @@ class Evaluator(object):
         self._mut_cache[path] = out
         return out
 
+    def tail_positions(self, body):
+        out = set()
+        n = body
+        while n is not None:
+            out.add(n.get('sp'))
+            if n.get('k') == 'Block':
+                n = n.get('expr')
+            elif n.get('k') in ('AddrOf', 'DropTemps', 'Unary', 'Cast'):
+                n = n.get('e')
+            else:
+                break
+        for x in H.walk(body):
+            if x.get('k') == 'Ret' and x.get('e') is not None:
+                out.add(x['e'].get('sp'))
+        return out
+
     def _run_fn(self, fn, path, params, env, arg_terms, guards, chain):
+        self.tail_sps = set(getattr(self, 'tail_sps', set())) | self.tail_positions(fn.get('hir', {}))
         for i, p in enumerate(params):
             val = None
             if arg_terms is not None and i < len(arg_terms):
@@ -738,7 +755,7 @@ class Evaluator(object):
         g = returned[2][0]
         if g == payload_err:
             subject = sc
-        elif any(t == payload_err for t in subterms(g)):
+        elif any(t == payload_err for t in subterms(g)) or not H.pat_bindings(ea['pat']):
             subject = ('call', 'std::result::Result::map_err', (sc, ('closure', 'explicit', (('$c0', -1),), replace(g, payload_err, ('var', '$c0', -1)))), ())
         else:
             return None
@@ -754,6 +771,11 @@ class Evaluator(object):
             t = ('try', subject)
             self.emit('try', t, node, guards, fn, chain)
             return replace(obt, payload_ok, t)
+        if obt == payload_ok and node['sp'] in getattr(self, 'tail_sps', ()):
+            # in tail position: match r { Ok(v) => v, Err(e) => Err(g(e)) }   ==   r.map_err(g)?   (v is itself the result)
+            t = ('try', subject)
+            self.emit('try', t, node, guards, fn, chain)
+            return t
         # match r { Ok(v) => Ok(f(v)), Err(e) => Err(e) }   ==   r.map(|v| f(v))  (canonical: Ok(f(r?)))
         if obt[0] == 'call' and obt[1] == 'Ok' and len(obt[2]) == 1:
             t = ('try', subject)
@@ -921,6 +943,9 @@ def _hands_error_on(body, pat):
     if b.get('k') != 'Call' or (b['f'].get('path') or '').split('::')[-1] != 'Err' or len(b['args']) != 1:
         return False
     binds = [x['id'] for x in H.pat_bindings(pat)]
+    if not binds:
+        # `Err(_) => Err(<constant error>)`
+        return not any(n.get('k') in ('Call', 'MethodCall') and not (n.get('k') == 'Call' and n['f'].get('dk', '').startswith('Ctor')) for n in H.walk(b['args'][0]))
     if len(binds) != 1:
         return False
     return any(n.get('k') == 'Local' and n['id'] == binds[0] for n in H.walk(b['args'][0]))
